@@ -192,7 +192,8 @@ def body_marks(view, f, published_only=True):
                     if "MRUC" in fx.effects.get(c, ()):
                         m = True
             if m:
-                if tag and ev.get("mclass") in ("replace", "retain"):
+                if (tag and ev.get("mclass") in ("replace", "retain")) or ev.get("mclass") == "reorder" or (
+                        ev.get("kind") == "mw" and ev.get("name") in ("extend", "dedup_by", "dedup_by_key", "extract_if")):
                     # `map.clone_from(..)`: the user's Clone runs while the map is being overwritten (W;U, not U;W).
                     # `map.retain2(user predicate)`: the predicate runs while the map is being compacted; when it unwinds,
                     # indexmap keeps the entries it has moved but does not rebuild its hash table, so later map operations can
@@ -329,7 +330,17 @@ def retain_pattern_ok(view, f):
     for c, ctor in (("heap", "Index"), ("qp", "Position")):
         v = whole[c]["val"]
         names = [x[1].split("::")[-1] for x in walk(v) if x[0] == "call"]
-        has_ctor = any(x[0] == "fnconst" and x[1].endswith("::" + ctor) for x in walk(v))
+        def is_ctor(key):
+            # the tuple-struct constructor itself, or a function that only applies it (`Index::new(i) = Index(i)`)
+            if key.endswith("::" + ctor):
+                return True
+            g = view.prog.fn(key)
+            if g is None or not g.blocks:
+                return False
+            from .rules_decl import ret_term as _rt
+            r = strip(_rt(view, g))
+            return r[0] == "adt" and r[1].endswith("::" + ctor) and len(r[3]) == 1 and is_param(r[3][0], 1)
+        has_ctor = any(x[0] == "fnconst" and is_ctor(x[1]) for x in walk(v))
         rng = [x for x in walk(v) if x[0] == "adt" and x[1].endswith("Range") and len(x[3]) == 2]
         end = strip(rng[0][3][1]) if rng else None
         end_ok = end is not None and ((component(end) and component(end)[0] == "size") or (
@@ -769,6 +780,14 @@ def trace_quantity(view, f, o, depth=0):
     # reads of the size field:  (*_1).size , (*_1).store.size
     if proj and proj[-1]["k"] == "field" and proj[-1].get("name") == "size" and proj[-1].get("of") == STORE:
         return ("read", "size", None)   # caller supplies the block
+    # `*size` where `let Store { size, .. } = self` (a reference to the size field, taken once)
+    if len(proj) == 1 and proj[0]["k"] == "deref":
+        ds0 = f.defs.get(l, [])   # writes THROUGH the reference (`*size += 1`) do not redefine the reference
+        d0 = ds0[0] if len(ds0) == 1 and not f.locals[l]["arg"] else None
+        if d0 is not None and d0[0] == "stmt" and d0[3]["rv"]["k"] == "ref":
+            pp = d0[3]["rv"]["place"]["proj"]
+            if pp and pp[-1]["k"] == "field" and pp[-1].get("name") == "size" and pp[-1].get("of") == STORE:
+                return ("read", "size", None)
     d = _single_def(f, l)
     if d is None:
         ds = f.defs.get(l, [])
